@@ -78,15 +78,18 @@ var opNames = map[Op]string{
 }
 
 type Term struct {
-	op   Op
-	sort Sort
-	args []*Term
-	c    uint64 // constant value (masked to width; bool: 0/1)
-	name string // var / uf name
-	p1   int    // extract hi / extend amount
-	p2   int    // extract lo
-	id   uint64
-	size int // approximate dag size for printing decisions
+	op     Op
+	sort   Sort
+	args   []*Term
+	c      uint64 // constant value (masked to width; bool: 0/1)
+	name   string // var / uf name
+	p1     int    // extract hi / extend amount
+	p2     int    // extract lo
+	id     uint64
+	size   int // approximate dag size for printing decisions
+	vs     []int32
+	vsDone bool
+	pstr   string
 }
 
 var termCounter uint64
@@ -629,6 +632,9 @@ func (p *printer) count(t *Term) {
 }
 
 func (p *printer) declVar(t *Term) {
+	if p.decls == nil {
+		return
+	}
 	if s, ok := p.decls.vars[t.name]; ok {
 		if s != t.sort {
 			panic(fmt.Sprintf("variable %s redeclared with sort %v (was %v)", t.name, t.sort, s))
@@ -651,6 +657,9 @@ func (p *printer) declUF(t *Term) {
 	sb.WriteString(") ")
 	sb.WriteString(t.sort.String())
 	sig := sb.String()
+	if p.decls == nil {
+		return
+	}
 	if s, ok := p.decls.ufs[t.name]; ok {
 		if s != sig {
 			panic(fmt.Sprintf("uf %s redeclared %s vs %s", t.name, sig, s))
